@@ -83,9 +83,19 @@ fn perturb(point: Point, worker: usize) {
     }
 }
 
+/// last hook point per worker; survives the per-scenario clearing of the event log
+static LAST_POINT: Mutex<Vec<String>> = Mutex::new(Vec::new());
+
 pub fn install_hook() {
     let _ = log();
     verif_hooks::set(Box::new(|point, worker| {
+        if point != Point::Submit {
+            let mut lp = LAST_POINT.lock().unwrap_or_else(|e| e.into_inner());
+            if lp.len() <= worker {
+                lp.resize(worker + 1, "none".to_string());
+            }
+            lp[worker] = format!("{:?}", point);
+        }
         record(&format!("{:?}", point), worker as i64);
         perturb(point, worker);
     }));
@@ -167,18 +177,8 @@ fn wait_until(cond: impl Fn() -> bool, progress: impl Fn() -> usize, watchdog: D
 
 /// Last hook event per worker thread name.
 fn census(n: usize) -> Vec<String> {
-    let l = log();
-    let ev = l.events.lock().unwrap_or_else(|e| e.into_inner());
-    let mut last = vec!["none".to_string(); n];
-    for e in ev.iter() {
-        if matches!(e.point.as_str(), "BeforeLock" | "Locked" | "Received" | "Finished") {
-            let w = e.arg as usize;
-            if w < n {
-                last[w] = e.point.clone();
-            }
-        }
-    }
-    last
+    let lp = LAST_POINT.lock().unwrap_or_else(|e| e.into_inner());
+    (0..n).map(|w| lp.get(w).cloned().unwrap_or("none".to_string())).collect()
 }
 
 fn quiescent(n: usize) -> bool {
@@ -228,6 +228,7 @@ pub fn run(n: usize, spec_path: &str, out_path: &str, watchdog_s: u64) {
     let pool = ThreadPool::new(n);
     let mut lines = spec.lines().peekable();
     let mut next_id: i64 = 0;
+    let mut flagged = 0;
     while let Some(line) = lines.next() {
         let p: Vec<&str> = line.split_whitespace().collect();
         if p.len() < 4 {
@@ -389,6 +390,13 @@ pub fn run(n: usize, spec_path: &str, out_path: &str, watchdog_s: u64) {
         }
         dump_events(&mut out, &scn);
         let _ = out.flush();
+        if !flags.is_empty() && kind != "faulty" {
+            flagged += 1;
+            if flagged >= 2 {
+                // the violation is on record; do not wait out more watchdogs
+                break;
+            }
+        }
     }
     let _ = out.flush();
     // never drop the pool: its workers would spin on a disconnected channel
